@@ -80,10 +80,15 @@ Proof. exact config_accepts. Qed.
 (* no trigger is involved for imsc_writer.time_format: the decoder is exact *)
 Theorem C19_config_accepts_time_format : forall v, v <> JNull -> (accepts KTimeFormat v = true <-> documented KTimeFormat v = true).
 Proof. exact acc_time_format. Qed.
-(* colours and font stacks, partial: non-strings are rejected; every TTML named colour, every #rrggbb/#rrggbbaa and
-   every single family name of two or more letters is documented and accepted.  Missing: rgb()/rgba() values and
-   multi-family font stacks (the regular-expression scanners of parse_color / parse_font_families against the
-   TTML2 grammar) — those are covered by the probe and correspondence runs only. *)
+(* colours and font stacks, partial.  Colours: every documented colour (named, #rrggbb, #rrggbbaa, rgb(), rgba() with
+   components 0..255) shorter than CPython's int() digit limit is accepted, and non-strings are rejected.  Missing: the
+   converse for strings (an accepted string outside the trigger is documented) — the regular-expression scanners of
+   parse_color against the grammar.  Font stacks: non-strings rejected, a single family name of two or more letters
+   is documented and accepted; multi-family stacks and quoted names are covered by the probe and correspondence
+   runs only. *)
+Theorem C19_config_accepts_color_complete : forall k s,
+  (k = KColor \/ k = KBgColor) -> (Z.of_nat (length s) <=? 4290) = true -> documented k (JStr s) = true -> accepts k (JStr s) = true.
+Proof. exact color_complete_documented. Qed.
 Theorem C19_config_accepts_color_font_partial :
   (forall k v, (k = KColor \/ k = KBgColor \/ k = KFontStack) -> v <> JNull -> (forall s, v <> JStr s) ->
                accepts k v = false /\ documented k v = false) /\
@@ -134,5 +139,5 @@ Print Assumptions C19_malformed_inline.  Print Assumptions C19_filters_order.  P
 Print Assumptions C19_lang_override.  Print Assumptions C19_errors_no_output.  Print Assumptions C19_help_no_output.
 Print Assumptions C19_unknown_subcommand.  Print Assumptions C19_output_only_if_valid.
 Print Assumptions C19_config_accepts_partial.  Print Assumptions C19_config_accepts_time_format.
-Print Assumptions C19_config_accepts_color_font_partial.  Print Assumptions C19_decoders_on_probe_set.
+Print Assumptions C19_config_accepts_color_complete.  Print Assumptions C19_config_accepts_color_font_partial.  Print Assumptions C19_decoders_on_probe_set.
 Print Assumptions C19_defaults_are_the_codes.
